@@ -80,6 +80,35 @@ def prune_state(e, s, under, arrays=True):
     return e
 
 
+def settle_state(e, s, kinds):
+    """The state with every scalar / JoinedString text replaced by what its own set(text) makes of it
+    (what from_flat necessarily does to a leaf).  Used only to state what the leaf-level known findings
+    predict; for settled leaves it is the identity."""
+    t = s["t"]
+    if t == "leaf":
+        probe = fl.kind_class(kinds[s["k"]])()
+        try:
+            probe.set(e["leaf"])
+        except Exception:
+            return e
+        return {"leaf": probe.u}
+    if t == "joined":
+        probe = fl.kind_class(kinds[s["k"]])()
+        try:
+            probe.set(e["joined"][0])
+        except Exception:
+            return e
+        return {"joined": [probe.u, [{"leaf": m.u} for m in probe]]}
+    if t in ("dict", "compound"):
+        fields = {f["name"]: f for f in s["fields"]}
+        return {"dict": [[k, settle_state(v, fields[k], kinds)] for k, v in e["dict"]]}
+    if t == "list":
+        return {"list": [settle_state(m, s["member"], kinds) for m in e["list"]]}
+    if t == "array":
+        return {"array": [settle_state(m, s["member"], kinds) for m in e["array"]]}
+    return e
+
+
 def order_normal(e, s):
     """Members of sparse dicts in schema order (for the class predicate of KF-C01-d)."""
     t = s["t"]
@@ -105,7 +134,7 @@ def leaf_values(el, s, sep):
     return out
 
 
-def unsettled_leaves(el, schema, kinds):
+def unsettled_leaves(el, schema, kinds, sep=None):
     """Leaves whose text is not a fixpoint of their own set() — the round trip cannot be exact."""
     out = []
     for e, sc in fl.walk_elements(el, schema):
@@ -119,7 +148,8 @@ def unsettled_leaves(el, schema, kinds):
             except Exception:
                 continue
             if probe.u != e.u or (sc["t"] == "leaf" and kind["type"] in fl.EXACT_TYPES and e.u != "" and probe.value != e.value):
-                out.append((kind["type"], e.u, probe.u))
+                out.append((kind["type"], e.u, probe.u, e.flattened_name(sep) if sep is not None else None,
+                            repr(e.value), repr(probe.value)))
     return out
 
 
@@ -309,19 +339,61 @@ class C01(Property):
         return fails
 
     def classify(self, case, failure):
+        """A failure belongs to a known finding only when the observation is what that finding PREDICTS for
+        this very case (not merely when the case contains the finding's trigger)."""
         schema, kinds, sep = case["schema"], case["kinds"], case["sep"]
+        clause = failure.get("clause")
         if not fl.sep_safe(sep, fl.schema_names(schema)):
-            return "KF-C01-a"
+            # KF-C01-a predicts: the failure is caused by the separator overlapping names — the same case
+            # under a separator that occurs nowhere in its names / indexes / itself does not fail that way
+            safe = next(c for c in ["\x1f", "\x1e", "\x1d", "\u2063"] if all(c not in n for n in fl.schema_names(schema)))
+            alt = dict(case, sep=safe)
+            try:
+                still = [f for f in self.oracle(alt) if f.get("clause") == clause]
+            except Exception:
+                still = [1]
+            still = [f for f in still if f == 1 or self.classify(alt, f) is None]
+            return None if still else "KF-C01-a"
         try:
             r, _ = self._trip(case)
         except Exception:
             return None
-        if r is None:
+        if r is None or clause == "round-trip-raises":
             return None
         el, f0, el1, f1, el2, f2 = r
-        uns = unsettled_leaves(el, schema, kinds)
-        if uns:
-            types = {t for t, _, _ in uns}
+        uns = unsettled_leaves(el, schema, kinds, sep)
+        s0 = fl.extract(el, schema)
+        has_sparse = any(s["t"] == "dict" and s["mode"] != "dense" for s in fl.walk_schema(schema))
+        if uns and not has_sparse:
+            # KF-C01-b/c/f predict: the library behaves exactly like the documented round trip composed with
+            # each leaf's own set(text) — nothing else differs
+            types = {u[0] for u in uns}
+            if clause == "leaf-values-kept":
+                exp, obs = failure.get("expected"), failure.get("observed")
+                sub = {(u[3], u[4]): u[5] for u in uns}
+                predicted = Counter((k, sub.get((k, v), v)) for k, v in map(tuple, exp))
+                empt = {(u[3], u[5]) for u in uns if u[2] == ""}
+                predicted = Counter({kv: n for kv, n in predicted.items() if kv not in empt})
+                ok = predicted == Counter(map(tuple, obs))
+            elif clause in ("identical-flatten", "only-documented-pruning", "second-trip-stable"):
+                ok = False
+                for a1 in (True, False):
+                    s1 = prune_state(settle_state(s0, schema, kinds), schema, False, arrays=a1)
+                    if [list(p) for p in f1] != [list(p) for p in flatten_state(s1, schema, sep)]:
+                        continue
+                    if clause != "second-trip-stable":
+                        ok = True
+                        break
+                    for a2 in (True, False):
+                        s2 = prune_state(settle_state(s1, schema, kinds), schema, False, arrays=a2)
+                        if [list(p) for p in f2] == [list(p) for p in flatten_state(s2, schema, sep)]:
+                            ok = True
+                    if ok:
+                        break
+            else:
+                ok = False
+            if not ok:
+                return None
             if types <= {"Time", "Date", "DateTime"}:
                 return "KF-C01-b"
             if types <= {"Float"}:
@@ -329,11 +401,12 @@ class C01(Property):
             if types <= {"Joined"}:
                 return "KF-C01-f"
             return None
-        has_sparse = any(s["t"] == "dict" and s["mode"] != "dense" for s in fl.walk_schema(schema))
+        if uns:
+            s0 = settle_state(s0, schema, kinds)
         if has_sparse and failure.get("clause") in ("identical-flatten", "only-documented-pruning"):
-            s0 = prune_state(fl.extract(el, schema), schema, False)
+            s0b = prune_state(s0, schema, False, arrays=False)
+            s0 = prune_state(s0, schema, False)
             s1 = fl.extract(el1, schema)
-            s0b = prune_state(fl.extract(el, schema), schema, False, arrays=False)
             if Counter(flatten_state(s0, schema, sep)) == Counter(f1) or Counter(flatten_state(s0b, schema, sep)) == Counter(f1):
                 return "KF-C01-d"
             n0 = flatten_state(strip_blank_sparse(s0, schema), schema, sep)
